@@ -239,6 +239,8 @@ reuse_idx:
   if(cond & TICKIT_IO_HUP)
     events |= POLLHUP;
   evdata->pollfds[idx].events = events;
+  /* nothing has been polled for this descriptor yet, whatever the slot held */
+  evdata->pollfds[idx].revents = 0;
 
   evdata->pollwatches[idx] = watch;
 
